@@ -79,11 +79,19 @@ class Lock:
 _IMPORT_RE = re.compile(r"From\s+(Lib|Props|Spec|Model|Gen|Run|Snapshot)\s+Require\s+(?:Import\s+|Export\s+)?([^.]*)\.")
 
 
+_IMPORT_Q_RE = re.compile(r"(?<![A-Za-z_])Require\s+(?:Import\s+|Export\s+)?((?:(?:Lib|Props|Spec|Model|Gen|Run|Snapshot)\.[A-Za-z0-9_]+\s*)+)\.")
+
+
 def _imports(src):
+    """(library, module) pairs a .v file requires: `From L Require [Import] M ...` and `Require [Import] L.M ...`."""
     out = []
     for m in _IMPORT_RE.finditer(src):
         for name in m.group(2).split():
             out.append((m.group(1), name))
+    for m in _IMPORT_Q_RE.finditer(src):
+        for q in m.group(1).split():
+            lib, name = q.split(".", 1)
+            out.append((lib, name))
     return out
 
 
